@@ -274,7 +274,7 @@ void MD5::update(const void* plain_text_ptr, size_t plain_text_len)
 
     const uint8_t *plain_text_u8_ptr = static_cast<const uint8_t*>(plain_text_ptr);
 
-    uint32_t i = 0;
+    size_t i = 0;   //! 与 plain_text_len 同宽，否则长度 >= 4GB 时下面的循环计数会回绕
     //! 当其输入字节数的大于其可以补足64字节的字节数，进行补足
     if (plain_text_len >= partlen) {
         //! 向buffer_中补足partlen个字节，使其到达64字节
